@@ -21,6 +21,7 @@ ExtraTemplates ==
     Node("for", "", <<Nil, Nil, Nil, E(Node("un", "-", <<A>>))>>),
     If(A, Blk(<<E(B), E(Id("c"))>>), Blk(<<Blk(<<E(Id("d"))>>)>>)),
     E(Node("call", "", <<Id("f"), Fn(Nil, <<Id("p")>>, <<E(A), Ret(Id("p"))>>), B>>)),
+    If(A, Ret(Nil), E(B)), If(A, Ret(A), If(B, Ret(Nil), E(Id("c")))),
     E(Num("1")), E(Bin("*", Node("flt", "1.5", <<>>), A)), E(Bin("&&", Node("bool", "true", <<>>), B)), E(Node("null", "", <<>>)),
     If(A, E(Node("asg", "=", <<Id("x"), Node("obj", "", <<Id("k"), Num("1")>>)>>)), E(B)),
     If(A, E(Node("asg", "=", <<Id("x"), Fn(Nil, <<>>, <<>>)>>)), E(B)),
@@ -28,7 +29,7 @@ ExtraTemplates ==
     E(Bin("-", A, Node("un", "-", <<B>>))), E(Bin("+", A, Node("un", "++", <<B>>))), E(Bin("<", A, Node("un", "!", <<Node("un", "--", <<B>>)>>))) }
 \* first statements put in front of every single-statement program (two-statement programs also
 \* in the small configuration)
-Firsts == {E(A), Let("x", Num("1"))}
+Firsts == {E(A), Let("x", Num("1")), Let("g", Fn(Nil, <<>>, <<>>)), E(Node("asg", "=", <<Id("x"), Node("obj", "", <<Id("k"), Num("1")>>)>>))}
 AllTemplates == Templates \cup ExtraTemplates
 
 Init == ss = <<>>
@@ -39,7 +40,8 @@ Programs == IF Len(ss) = 0 THEN {}
             ELSE (IF TopOK(ss) THEN {Prog(ss)} ELSE {}) \cup {Prog(<<Node("fdecl", "", <<Id("h"), PList(<<>>), Blk(ss)>>)>>)}
                  \cup (IF Len(ss) = 1 /\ TopOK(ss) THEN {Prog(<<f>> \o ss) : f \in Firsts} ELSE {})
 
-Decos == {<<"O">>, <<"T">>, <<"B">>, <<"B", "O">>, <<"O", "B">>, <<"T", "O">>, <<"O", "O">>, <<"T", "B">>}
+Decos == {<<"O">>, <<"T">>, <<"B">>, <<"B", "O">>, <<"O", "B">>, <<"T", "O">>, <<"O", "O">>, <<"T", "B">>,
+          <<"B", "B", "O">>, <<"B", "B", "B">>, <<"O", "B", "B", "B", "O">>}
 \* statement-level positions of a laid-out token list (indices): first token, first tokens of
 \* sibling statements, closing braces of blocks, end of input
 AnchorsOf(ts, toks) == {1, Len(toks)} \cup {j \in 1..Len(ts) : ts[j].sb \/ ts[j].bc}
@@ -62,9 +64,9 @@ Inv == \A p \in Programs :
                  mo   == [c \in 1..3 |-> PrintTree(p, Cfgs[c])]
              IN /\ ExportCase(toks, <<>>, IF \E j \in 1..Len(ts) : ts[j].ty = "LPAREN" /\ FALSE THEN <<>> ELSE mo)
                 /\ \A a \in anch : \A dc \in Decos : \A k \in 0..(NTexts - 1) :
-                     ((dc[1] = "T" => a > 1) /\ (Len(ss) > 1 => k = (a % NTexts))) =>
+                     ((dc[1] = "T" => a > 1) /\ (k \in {a % NTexts, (a + Len(toks) + 3) % NTexts} \/ (Len(ss) = 1 /\ p = Prog(ss) /\ Len(dc) = 1))) =>
                         ExportCase(toks, (a :> PreOf(dc, k)), <<>>)
-                /\ (MaxDecorated >= 2 =>
+                /\ ((MaxDecorated >= 2 /\ p = Prog(ss)) =>
                       \A a, b \in anch : a < b =>
                         \A dc \in {<<"O">>, <<"T">>, <<"B", "O">>} : \A dd \in {<<"O">>, <<"B">>, <<"T", "B">>} :
                           (dc[1] = "T" => a > 1) =>
